@@ -182,3 +182,670 @@ Proof.
   rewrite <- (Nat.add_0_l j) at 1. rewrite (pos_of_tag_filter Q L 0 j (K it, V it) HL) by (unfold Q; cbn [fst]; apply keys_eqv_refl).
   rewrite EL. rewrite firstn_map, !filter_map_comm', map_length, map_map. reflexivity.
 Qed.
+
+Lemma nth_error_filter_firstn {X} (P : X -> bool) (S : list X) : forall j x, nth_error S j = Some x -> P x = true ->
+  nth_error (filter P S) (List.length (filter P (firstn j S))) = Some x.
+Proof.
+  induction S as [|y S IH]; intros j x H Px; [destruct j; discriminate|]. destruct j as [|j]; simpl in H.
+  - inversion H; subst. simpl. rewrite Px. reflexivity.
+  - simpl. destruct (P y); simpl; apply (IH j x H Px).
+Qed.
+
+(* the transform written per item: the window function over the item's group (in frame order), read at the item's tag *)
+Lemma grouped_apply_lookup {X} (f : list val -> list val) (K : nat * X -> list val) (V : nat * X -> val) (S : list (nat * X)) :
+  NoDup (map fst S) ->
+  grouped_apply f (map K S) (map V S)
+  = map (fun it => let G := filter (fun it' => keys_eqv (K it) (K it')) S in
+                   lookup_pos (combine (map fst G) (f (map V G))) (fst it)) S.
+Proof.
+  intros N.
+  assert (List.length (grouped_apply f (map K S) (map V S)) = List.length S) as LG
+    by (rewrite grouped_apply_length, combine_length, !map_length, Nat.min_id; reflexivity).
+  apply (nth_ext _ _ VNull VNull).
+  - rewrite LG, map_length. reflexivity.
+  - intros j Lj. rewrite LG in Lj.
+    destruct (nth_error S j) as [it|] eqn:Hj; [|apply nth_error_None in Hj; lia].
+    rewrite (grouped_apply_nth f K V S j it Hj).
+    set (F := fun it0 : nat * X => let G := filter (fun it' => keys_eqv (K it0) (K it')) S in
+                                   lookup_pos (combine (map fst G) (f (map V G))) (fst it0)).
+    rewrite (nth_error_nth (map F S) j VNull (map_nth_error F j S Hj)). unfold F. cbv zeta.
+    destruct it as [i x]. symmetry.
+    apply (lookup_combine (filter (fun it' => keys_eqv (K (i, x)) (K it')) S) _ i _ x).
+    + apply NoDup_map_fst_filter, N.
+    + apply nth_error_filter_firstn; [exact Hj|apply keys_eqv_refl].
+Qed.
+
+(* ------------------------------------------------------------------ the collection loop without constant arguments *)
+Definition vcols_step (acc : list string) (ke : string * expr) : list string :=
+  match win_shape (snd ke) with Some (_, Some (WCol c), _) => add_end acc c | _ => acc end.
+
+Lemma wcollect_fold cs keys ops : forall cl nm res st,
+  forallb (win_ok_b cs keys) ops = true ->
+  fold_left (fun acc ke => s <- acc ;; wcollect s ke) ops (Some (mkws cl [] nm res)) = Some st ->
+  st = mkws (fold_left vcols_step ops cl) [] nm res.
+Proof.
+  induction ops as [|ke ops IH]; intros cl nm res st Ok H; simpl in H; [inversion H; reflexivity|].
+  cbn [forallb] in Ok. apply andb_true_iff in Ok. destruct Ok as [Ok1 Ok].
+  unfold wcollect at 2 in H. unfold win_ok_b in Ok1. cbn [fold_left]. unfold vcols_step at 2.
+  destruct (win_shape (snd ke)) as [[[fn [[c|v]|]] ex]|]; try discriminate; cbn [obind ws_cols ws_temps ws_names ws_res] in H.
+  - unfold add_end. destruct (mem c cl); apply (IH _ _ _ _ Ok H).
+  - apply (IH _ _ _ _ Ok H).
+Qed.
+
+Lemma vcols_prefix ops : forall cl, exists extra, fold_left vcols_step ops cl = cl ++ extra.
+Proof.
+  induction ops as [|ke ops IH]; intros cl; [exists []; rewrite app_nil_r; reflexivity|]. cbn [fold_left].
+  unfold vcols_step at 2. destruct (win_shape (snd ke)) as [[[fn [[c|v]|]] ex]|]; try apply IH.
+  unfold add_end. destruct (mem c cl); [apply IH|]. destruct (IH (cl ++ [c])) as [ex' E]. exists (c :: ex'). rewrite E, <- app_assoc. reflexivity.
+Qed.
+Lemma vcols_In ops : forall cl x, In x (fold_left vcols_step ops cl) <->
+  In x cl \/ exists ke fn ex, In ke ops /\ win_shape (snd ke) = Some (fn, Some (WCol x), ex).
+Proof.
+  induction ops as [|ke ops IH]; intros cl x; cbn [fold_left].
+  - split; [tauto|]. intros [I|[ke [fn [ex [[] _]]]]]. exact I.
+  - rewrite IH. unfold vcols_step. split.
+    + intros [I|[ke' [fn [ex [I E]]]]].
+      * destruct (win_shape (snd ke)) as [[[fn [[c|v]|]] ex]|] eqn:Ew; try (left; exact I).
+        apply In_add_end in I. destruct I as [I| ->]; [left; exact I|]. right. exists ke, fn, ex. split; [left; reflexivity|exact Ew].
+      * right. exists ke', fn, ex. split; [right; exact I|exact E].
+    + intros [I|[ke' [fn [ex [[<-|I] E]]]]].
+      * left. destruct (win_shape (snd ke)) as [[[fn [[c|v]|]] ex]|]; try exact I. apply In_add_end. left. exact I.
+      * left. rewrite E. apply In_add_end. right. reflexivity.
+      * right. exists ke', fn, ex. split; assumption.
+Qed.
+Lemma vcols_nodup ops : forall cl, NoDup cl -> NoDup (fold_left vcols_step ops cl).
+Proof.
+  induction ops as [|ke ops IH]; intros cl N; [exact N|]. cbn [fold_left]. apply IH. unfold vcols_step.
+  destruct (win_shape (snd ke)) as [[[fn [[c|v]|]] ex]|]; try exact N. apply NoDup_add_end, N.
+Qed.
+
+(* ------------------------------------------------------------------ sorted lists, prefixes of the sort key *)
+Lemma SS_filter {X} (R : X -> X -> Prop) (P : X -> bool) l : StronglySorted R l -> StronglySorted R (filter P l).
+Proof.
+  induction 1 as [|x l S IH F]; simpl; [constructor|]. destruct (P x); [|exact IH]. constructor; [exact IH|].
+  rewrite Forall_forall in *. intros y Iy. apply filter_In in Iy. apply F. tauto.
+Qed.
+Lemma SS_weaken_in {X} (R R' : X -> X -> Prop) l : StronglySorted R l -> (forall a b, In a l -> In b l -> R a b -> R' a b) -> StronglySorted R' l.
+Proof.
+  induction 1 as [|x l S IH F]; intros H; constructor.
+  - apply IH. intros a b Ia Ib. apply H; right; assumption.
+  - rewrite Forall_forall in *. intros y Iy. apply H; [left; reflexivity|right; exact Iy|apply F, Iy].
+Qed.
+Lemma SS_all {X} (R : X -> X -> Prop) l : (forall a b, R a b) -> StronglySorted R l.
+Proof. intros H. induction l as [|x l IH]; constructor; [exact IH|]. apply Forall_forall. intros y _. apply H. Qed.
+
+Lemma rle_app_eqv {I} (phi : I -> string -> val) k1 k2 a b :
+  (forall c, In c (map fst k1) -> v_eqv (phi a c) (phi b c) = true) -> rle phi (k1 ++ k2) a b = rle phi k2 a b.
+Proof.
+  induction k1 as [|[c d] k1 IH]; intros H; [reflexivity|]. cbn [app rle]. rewrite (H c) by (left; reflexivity).
+  apply IH. intros c0 I0. apply H. right. exact I0.
+Qed.
+Lemma rle_prefix {I} (phi : I -> string -> val) k1 k2 a b : rle phi (k1 ++ k2) a b = true -> rle phi k1 a b = true.
+Proof.
+  induction k1 as [|[c d] k1 IH]; [reflexivity|]. cbn [app rle]. destruct (v_eqv (phi a c) (phi b c)); [exact IH|tauto].
+Qed.
+
+Lemma keys_eqv_each (ks : list string) (f g : string -> val) :
+  keys_eqv (map f ks) (map g ks) = true -> forall c, In c ks -> v_eqv (f c) (g c) = true.
+Proof.
+  induction ks as [|k ks IH]; intros E c I; [contradiction|]. cbn [map keys_eqv] in E. apply andb_true_iff in E. destruct E as [E1 E2].
+  destruct I as [<-|I]; [exact E1|apply IH; assumption].
+Qed.
+
+(* numbers: cumcount() + 1 *)
+Lemma qn_plus_one n : num2 Qplus (qn (inject_Z (Z.of_nat n))) vone = qn (inject_Z (Z.of_nat (S n))).
+Proof.
+  unfold num2, qn, vone, vnat. cbn [num_of]. f_equal. apply Qred_complete. rewrite Qred_correct.
+  unfold inject_Z, Qplus, Qeq. cbn [Qnum Qden]. rewrite Nat2Z.inj_succ. lia.
+Qed.
+Lemma nth_number_from (l : list val) : forall i j, (j < List.length l)%nat -> nth j (number_from i l) VNull = qn (inject_Z (Z.of_nat (i + j))).
+Proof.
+  induction l as [|x l IH]; intros i j L; simpl in L; [lia|]. destruct j as [|j]; simpl.
+  - rewrite Nat.add_0_r. reflexivity.
+  - rewrite IH by lia. f_equal. f_equal. f_equal. lia.
+Qed.
+Lemma number_from_length (l : list val) i : List.length (number_from i l) = List.length l.
+Proof. revert i. induction l as [|x l IH]; intros i; simpl; [reflexivity|]. rewrite IH. reflexivity. Qed.
+
+(* ------------------------------------------------------------------ the value of one window term *)
+Lemma map_snd_tag_from (rs : list (list val)) : forall n, map snd (tag_from n rs) = rs.
+Proof. induction rs as [|r rs IH]; intros n; simpl; [reflexivity|]. rewrite IH. reflexivity. Qed.
+
+Section Term.
+  Variables (t : table) (w : window).
+  Let cs := cols t.
+  Let T0 := tag_from 0 (rows t).
+  Variable S : list (nat * list val).
+  Hypothesis PS : Permutation S T0.
+  Let samepart (r0 : list val) (it' : nat * list val) : bool := keys_eqv (key_of cs (w_part w) r0) (key_of cs (w_part w) (snd it')).
+  Hypothesis Ssorted : forall r0, StronglySorted (fun a b : nat * list val => row_le fl_pandas cs (okeys_of w) (snd a) (snd b) = true) (filter (samepart r0) S).
+  Definition Gof (r0 : list val) : list (nat * list val) := filter (samepart r0) S.
+
+  Lemma NoDup_tags : NoDup (map fst S).
+  Proof. eapply Permutation_NoDup; [apply Permutation_map, Permutation_sym, PS|]. unfold T0. rewrite tag_from_fst. apply seq_NoDup. Qed.
+
+  Lemma Gof_perm r0 : Permutation (map snd (Gof r0)) (part_rows cs (w_part w) (rows t) r0).
+  Proof.
+    unfold Gof, part_rows, samepart.
+    rewrite <- (filter_map_comm' snd (fun r2 => keys_eqv (key_of cs (w_part w) r0) (key_of cs (w_part w) r2)) S).
+    apply perm_filter. rewrite <- (map_snd_tag_from (rows t) 0). apply Permutation_map, PS.
+  Qed.
+
+  Lemma Gof_sorted_part r0 : In r0 (rows t) -> window_total fl_pandas cs w (rows t) ->
+    map snd (Gof r0) = sorted_part fl_pandas cs w (rows t) r0.
+  Proof.
+    intros Ir G. destruct (G r0 Ir) as [Nd Tot]. unfold sorted_part.
+    apply (sorted_perm_unique (row_le fl_pandas cs (okeys_of w))).
+    - apply (sorted_transfer (fun (it : nat * list val) (r1 : list val) => snd it = r1)
+                             (fun a b : nat * list val => row_le fl_pandas cs (okeys_of w) (snd a) (snd b))
+                             (row_le fl_pandas cs (okeys_of w)) (Gof r0) (map snd (Gof r0))).
+      + intros a a' b b' Ea Eb. rewrite <- Ea, <- Eb. reflexivity.
+      + generalize (Gof r0). intros l0. induction l0 as [|x l0 IH]; simpl; constructor; [reflexivity|exact IH].
+      + apply (Ssorted r0).
+    - apply stable_sort_sorted; [intros; apply row_le_total|intros; eapply row_le_trans; eassumption].
+    - eapply perm_trans; [apply Gof_perm|]. apply Permutation_sym, stable_sort_perm.
+    - intros a b Ia Ib. apply Tot; eapply Permutation_in; try eassumption; apply Gof_perm.
+  Qed.
+
+  (* the looked-up value of a term at the row with tag i, against the reference value at row i *)
+  Lemma term_value fn extra (V : nat * list val -> val) (arg : option expr) i r :
+    In (i, r) S ->
+    (forall l : list (nat * list val), win_fn fl_pandas fn extra (map V l) = win_fn fl_pandas fn extra (map (arg_val fl_pandas cs arg) (map snd l))) ->
+    (order_sensitive fn = true -> window_total fl_pandas cs w (rows t)) ->
+    forall j', nth_error (sorted_part fl_pandas cs w (rows t) r) j' = Some r ->
+    lookup_pos (combine (map fst (Gof r)) (win_fn fl_pandas fn extra (map V (Gof r)))) i
+    = nth j' (win_fn fl_pandas fn extra (map (arg_val fl_pandas cs arg) (sorted_part fl_pandas cs w (rows t) r))) VNull.
+  Proof.
+    intros Ii HV Gd j' Hj'.
+    assert (In r (rows t)) as Ir.
+    { apply (Permutation_in _ PS) in Ii. unfold T0 in Ii. apply tag_from_In in Ii. exact Ii. }
+    assert (In (i, r) (Gof r)) as IG by (apply filter_In; split; [exact Ii|unfold samepart; apply keys_eqv_refl]).
+    destruct (In_nth_error _ _ IG) as [rank Hrank].
+    rewrite (lookup_combine (Gof r) _ i rank r (NoDup_map_fst_filter _ _ NoDup_tags) Hrank).
+    rewrite (HV (Gof r)). destruct (order_sensitive fn) eqn:Os.
+    - (* order-sensitive: the group IS the ordered partition of the reference semantics *)
+      pose proof (Gd eq_refl) as G. rewrite (Gof_sorted_part r Ir G). f_equal.
+      destruct (G r Ir) as [Nd _].
+      assert (NoDup (sorted_part fl_pandas cs w (rows t) r)) as NdS.
+      { unfold sorted_part. eapply Permutation_NoDup; [apply Permutation_sym, stable_sort_perm|exact Nd]. }
+      apply (proj1 (NoDup_nth_error _) NdS); [apply nth_error_Some; rewrite <- (Gof_sorted_part r Ir G), (map_nth_error snd _ _ Hrank); discriminate|].
+      rewrite Hj', <- (Gof_sorted_part r Ir G). apply (map_nth_error snd _ _ Hrank).
+    - (* a group aggregate: one value for the whole group, whatever its order *)
+      rewrite !(win_fn_broadcast fl_pandas fn extra _ Os).
+      assert (Permutation (map snd (Gof r)) (sorted_part fl_pandas cs w (rows t) r)) as Pg.
+      { eapply perm_trans; [apply Gof_perm|]. unfold sorted_part. apply Permutation_sym, stable_sort_perm. }
+      rewrite (nth_map_const _ _ rank) by (rewrite map_length, map_length; apply nth_error_Some; congruence).
+      rewrite (nth_map_const _ _ j') by (rewrite map_length; apply nth_error_Some; congruence).
+      apply agg_fn_perm, Permutation_map, Pg.
+  Qed.
+End Term.
+
+(* ------------------------------------------------------------------ small facts used by the assembly *)
+Lemma py_set_nodup (l : list string) : NoDup l -> py_set l = l.
+Proof.
+  unfold py_set. assert (forall acc, NoDup (acc ++ l) -> fold_left add_end l acc = acc ++ l) as H.
+  { induction l as [|x l IH]; intros acc N; simpl; [rewrite app_nil_r; reflexivity|].
+    assert (~ In x acc) as Nx. { intros I. apply NoDup_remove_2 in N. apply N. apply in_app_iff. left. exact I. }
+    rewrite (add_end_new _ _ Nx). rewrite IH; [rewrite <- app_assoc; reflexivity|]. rewrite <- app_assoc. exact N. }
+  intros N. apply (H [] N).
+Qed.
+Lemma fold_add_end_nodup (a b : list string) : NoDup (a ++ b) -> fold_left add_end b a = a ++ b.
+Proof.
+  revert a. induction b as [|x b IH]; intros a N; simpl; [rewrite app_nil_r; reflexivity|].
+  assert (~ In x a) as Nx. { intros I. apply NoDup_remove_2 in N. apply N. apply in_app_iff. left. exact I. }
+  rewrite (add_end_new _ _ Nx). rewrite IH; [rewrite <- app_assoc; reflexivity|]. rewrite <- app_assoc. exact N.
+Qed.
+Lemma NoDup_app_l' {X} (l m : list X) : NoDup (l ++ m) -> NoDup l.
+Proof. induction l as [|x l IH]; simpl; intros N; [constructor|]. inversion N as [|? ? Nx Nl]; subst. constructor; [|apply IH, Nl]. intros I. apply Nx, in_app_iff. left. exact I. Qed.
+
+Lemma get_map_fst {X} (H : string * X -> val) (l : list (string * X)) ke :
+  NoDup (map fst l) -> In ke l -> get (map fst l) (map H l) (fst ke) = H ke.
+Proof.
+  induction l as [|x l IH]; intros N I; [contradiction|]. cbn [map] in *. inversion N as [|? ? Nx Nl]; subst. destruct I as [->|I].
+  - apply get_cons_same.
+  - rewrite get_cons_other; [apply IH; assumption|]. intros E. apply Nx. rewrite <- E. apply in_map. exact I.
+Qed.
+
+Lemma vnat_cmp i j : (if v_eqv (vnat i) (vnat j) then true else v_le_dir (nulls_first fl_pandas false) false (vnat i) (vnat j)) = Nat.leb i j.
+Proof.
+  unfold vnat, v_eqv, v_le_dir, v_le, nulls_first. cbn [num_of f_nulls_first_asc fl_pandas].
+  destruct (Qeq_bool (inject_Z (Z.of_nat i)) (inject_Z (Z.of_nat j))) eqn:E.
+  - apply Qeq_bool_iff in E. unfold Qeq, inject_Z in E. cbn [Qnum Qden] in E. symmetry. apply Nat.leb_le. lia.
+  - destruct (Qle_bool (inject_Z (Z.of_nat i)) (inject_Z (Z.of_nat j))) eqn:L.
+    + apply Qle_bool_iff in L. unfold Qle, inject_Z in L. cbn [Qnum Qden] in L. symmetry. apply Nat.leb_le. lia.
+    + symmetry. apply Nat.leb_gt. destruct (Nat.lt_ge_cases j i) as [H|H]; [exact H|]. exfalso.
+      assert (Qle_bool (inject_Z (Z.of_nat i)) (inject_Z (Z.of_nat j)) = true) as T; [|congruence].
+      apply Qle_bool_iff. unfold Qle, inject_Z. cbn [Qnum Qden]. lia.
+Qed.
+
+Lemma tag_from_sorted (rs : list (list val)) : forall n, StronglySorted (fun a b : nat * list val => Nat.leb (fst a) (fst b) = true) (tag_from n rs).
+Proof.
+  induction rs as [|r rs IH]; intros n; simpl; constructor; [apply IH|].
+  apply Forall_forall. intros [i0 r0] I. apply tag_from_In_nth in I. destruct I as [j [E _]]. cbn [fst]. apply Nat.leb_le. lia.
+Qed.
+
+(* ------------------------------------------------------------------ the loop over the window terms *)
+Section Apply.
+  Variables (cs : list string) (S : list (nat * list val)) (K : nat * list val -> list val) (standin : string).
+  Hypothesis NdS : NoDup (map fst S).
+
+  Definition lk (f : list val -> list val) (V : nat * list val -> val) (it : nat * list val) : val :=
+    let G := filter (fun it' => keys_eqv (K it) (K it')) S in lookup_pos (combine (map fst G) (f (map V G))) (fst it).
+
+  Definition OUT (ke : string * expr) (it : nat * list val) : val :=
+    match win_shape (snd ke) with
+    | Some (fn, None, _) =>
+        match strip_underscore fn with
+        | Some z => if String.eqb z "row_number" || String.eqb z "count"
+                    then num2 Qplus (lk (number_from 0) (fun _ => VNull) it) vone
+                    else lk (win_fn fl_pandas (transform_op_map z) []) (fun _ => vone) it
+        | None => VNull
+        end
+    | Some (fn, Some (WCol c), ex) => lk (win_fn fl_pandas (transform_op_map fn) ex) (fun it' => get cs (snd it') c) it
+    | _ => VNull
+    end.
+
+  Lemma transform_lookup fn ex (V : nat * list val -> val) vs :
+    pd_grouped_transform (map K S) (map V S) fn ex = Some vs -> vs = map (lk (win_fn fl_pandas fn ex) V) S.
+  Proof.
+    unfold pd_grouped_transform. destruct (_ && _); [|discriminate]. intros H. inversion H. apply grouped_apply_lookup, NdS.
+  Qed.
+
+  Lemma wapply_step sub phi ke sub' :
+    descr sub S phi ->
+    (In standin (cols sub) /\ forall it, In it S -> phi it standin = vone) ->
+    (forall fn c ex, win_shape (snd ke) = Some (fn, Some (WCol c), ex) -> In c (cols sub) /\ forall it, In it S -> phi it c = get cs (snd it) c) ->
+    wapply (map K S) standin [] sub ke = Some sub' ->
+    descr sub' S (fun it x => if eq_dec x (fst ke) then OUT ke it else phi it x) /\ cols sub' = add_end (cols sub) (fst ke).
+  Proof.
+    intros D [Ist Hst] Hc. unfold wapply, OUT. destruct (win_shape (snd ke)) as [[[fn [[c|v]|]] ex]|] eqn:Ew; try discriminate.
+    - (* fn(column, literals) *)
+      destruct (Hc fn c ex eq_refl) as [Ic Hcv]. unfold pd_col. apply mem_In in Ic as Mc. rewrite Mc. cbn [obind].
+      rewrite (descr_getcol _ _ _ c D (proj1 (mem_In _ _) Mc)).
+      rewrite (map_ext_in _ (fun it => get cs (snd it) c)) by (intros it I; apply Hcv, I).
+      destruct (pd_grouped_transform _ _ _ _) as [vs|] eqn:Et; cbn [obind]; [|discriminate].
+      rewrite (transform_lookup _ _ _ _ Et). intros H. apply (descr_set_col _ _ _ _ _ _ D H).
+    - (* fn() *)
+      destruct (strip_underscore fn) as [z|]; cbn [obind]; [|discriminate].
+      destruct (String.eqb z "row_number" || String.eqb z "count").
+      + unfold pd_grouped_cumcount. rewrite (map_map K (fun _ => VNull)).
+        rewrite (grouped_apply_lookup (number_from 0) K (fun _ => VNull) S NdS). rewrite map_map.
+        intros H. apply (descr_set_col _ (fun it => num2 Qplus (lk (number_from 0) (fun _ => VNull) it) vone) _ _ _ _ D H).
+      + destruct (String.eqb z "ngroup"); [discriminate|]. destruct (String.eqb z "size") eqn:Ez; [|discriminate].
+        unfold pd_col. apply mem_In in Ist as Ms. rewrite Ms. cbn [obind].
+        rewrite (descr_getcol _ _ _ standin D Ist). rewrite (map_ext_in _ (fun _ => vone)) by (intros it I; apply Hst, I).
+        destruct (pd_grouped_transform _ _ _ _) as [vs|] eqn:Et; cbn [obind]; [|discriminate].
+        rewrite (transform_lookup _ _ _ _ Et). intros H. apply (descr_set_col _ _ _ _ _ _ D H).
+  Qed.
+
+  Fixpoint out_of (ops : list (string * expr)) (x : string) : option (string * expr) :=
+    match ops with [] => None | ke :: t => if String.eqb (fst ke) x then Some ke else out_of t x end.
+
+  Lemma wapply_fold ops keysall : forall sub phi sub',
+    NoDup (map fst ops) -> (forall k, In k (map fst ops) -> In k keysall) ->
+    descr sub S phi ->
+    (In standin (cols sub) /\ ~ In standin keysall /\ forall it, In it S -> phi it standin = vone) ->
+    (forall ke fn c ex, In ke ops -> win_shape (snd ke) = Some (fn, Some (WCol c), ex) ->
+        (~ In c keysall \/ c = fst ke) /\ In c (cols sub) /\ forall it, In it S -> phi it c = get cs (snd it) c) ->
+    fold_left (fun acc ke => s <- acc ;; wapply (map K S) standin [] s ke) ops (Some sub) = Some sub' ->
+    descr sub' S (fun it x => match out_of ops x with Some ke => OUT ke it | None => phi it x end)
+    /\ cols sub' = fold_left add_end (map fst ops) (cols sub).
+  Proof.
+    induction ops as [|ke ops IH]; intros sub phi sub' Nd Sub D Hst Hc H.
+    - simpl in H. inversion H; subst. split; [|reflexivity]. eapply descr_weaken; [exact D|]. intros it x _ _. reflexivity.
+    - cbn [fold_left obind] in H. destruct (wapply (map K S) standin [] sub ke) as [sub1|] eqn:E1.
+      2:{ exfalso. clear -H. induction ops as [|k o IHo]; simpl in H; [discriminate|apply IHo, H]. }
+      cbn [map] in Nd. inversion Nd as [|? ? Nk Nt]; subst.
+      destruct Hst as [Ist [Nst Hst]].
+      destruct (wapply_step sub phi ke sub1 D (conj Ist Hst)) as [D1 C1].
+      { intros fn c ex Ew. destruct (Hc ke fn c ex (or_introl eq_refl) Ew) as [_ [Ic Hv]]. split; assumption. }
+      { exact E1. }
+      destruct (IH sub1 _ sub' Nt (fun k I => Sub k (or_intror I)) D1) as [D' C'].
+      + split; [rewrite C1; apply In_add_end; left; exact Ist|]. split; [exact Nst|]. intros it I.
+        destruct (eq_dec standin (fst ke)) as [E|_]; [exfalso; apply Nst, Sub; left; symmetry; exact E|]. apply Hst, I.
+      + intros ke2 fn c ex I2 Ew. destruct (Hc ke2 fn c ex (or_intror I2) Ew) as [Hk [Ic Hv]]. split; [exact Hk|]. split; [rewrite C1; apply In_add_end; left; exact Ic|].
+        intros it I. destruct (eq_dec c (fst ke)) as [E|_]; [|apply Hv, I].
+        exfalso. destruct Hk as [Hk|Hk].
+        * apply Hk, Sub. left. symmetry. exact E.
+        * apply Nk. rewrite <- E, Hk. apply in_map, I2.
+      + exact H.
+      + split; [|rewrite C', C1; reflexivity]. eapply descr_weaken; [exact D'|]. intros it x _ _. cbn [out_of].
+        destruct (String.eqb (fst ke) x) eqn:Ex.
+        * apply String.eqb_eq in Ex. subst x. replace (out_of ops (fst ke)) with (@None (string * expr)).
+          -- destruct (eq_dec (fst ke) (fst ke)); [reflexivity|congruence].
+          -- symmetry. clear -Nk. induction ops as [|k o IHo]; [reflexivity|]. cbn [out_of]. destruct (String.eqb (fst k) (fst ke)) eqn:E.
+             ++ exfalso. apply Nk. apply String.eqb_eq in E. rewrite <- E. left. reflexivity.
+             ++ apply IHo. intros I. apply Nk. right. exact I.
+        * destruct (out_of ops x); [reflexivity|]. destruct (eq_dec x (fst ke)) as [E|_]; [|reflexivity].
+          exfalso. rewrite E, String.eqb_refl in Ex. discriminate.
+  Qed.
+End Apply.
+
+(* ------------------------------------------------------------------ a window term of the executor against the reference *)
+Lemma all_consts_flat rest ex : all_consts rest = Some ex -> flat_map (fun x => match x with EConst v => [v] | _ => [] end) rest = ex.
+Proof.
+  revert ex. induction rest as [|a rest IH]; intros ex H; simpl in H; [inversion H; reflexivity|].
+  destruct a as [c|v|o args]; try discriminate. destruct (all_consts rest) as [ex'|]; [|discriminate]. inversion H; subst. simpl. rewrite (IH ex' eq_refl). reflexivity.
+Qed.
+Lemma number_from_ext (l l' : list val) i : List.length l = List.length l' -> number_from i l = number_from i l'.
+Proof. revert l' i. induction l as [|x l IH]; intros [|y l'] i L; simpl in *; try discriminate; [reflexivity|]. f_equal. apply IH. lia. Qed.
+Lemma strip_underscore_inv fn z : strip_underscore fn = Some z -> fn = String "_" z.
+Proof.
+  unfold strip_underscore. destruct fn as [|a fn]; [discriminate|]. destruct fn as [|b fn]; [destruct a as [[] [] [] [] [] [] [] []]; discriminate|].
+  destruct a as [[] [] [] [] [] [] [] []]; try discriminate. intros H. inversion H. reflexivity.
+Qed.
+
+Section Final.
+  Variables (t : table) (w : window) (S : list (nat * list val)) (K : nat * list val -> list val).
+  Let cs := cols t.
+  Hypothesis PS : Permutation S (tag_from 0 (rows t)).
+  Hypothesis Ssorted : forall r0, StronglySorted (fun a b : nat * list val => row_le fl_pandas cs (okeys_of w) (snd a) (snd b) = true)
+                                    (filter (fun it' => keys_eqv (key_of cs (w_part w) r0) (key_of cs (w_part w) (snd it'))) S).
+  Hypothesis HK : forall it it', keys_eqv (K it) (K it') = keys_eqv (key_of cs (w_part w) (snd it)) (key_of cs (w_part w) (snd it')).
+
+  Lemma lk_Gof f V it : lk S K f V it = lookup_pos (combine (map fst (Gof t w S (snd it))) (f (map V (Gof t w S (snd it))))) (fst it).
+  Proof. unfold lk, Gof. rewrite (filter_ext _ (fun it' => keys_eqv (key_of cs (w_part w) (snd it)) (key_of cs (w_part w) (snd it')))) by (intros it'; apply HK). reflexivity. Qed.
+
+  Lemma out_value keys ke i r :
+    win_ok_b cs keys ke = true -> In (i, r) S -> nth_error (rows t) i = Some r ->
+    (expr_order_sensitive (snd ke) = true -> window_total fl_pandas cs w (rows t)) ->
+    (match win_shape (snd ke) with Some (fn, None, _) => exists z, strip_underscore fn = Some z /\ (z = "row_number" \/ z = "count" \/ z = "size") | _ => True end) ->
+    OUT cs S K ke (i, r) = lookup_pos (window_column fl_pandas w t (snd ke)) i.
+  Proof.
+    intros Ok Ii Hi Gd Hz. unfold OUT. unfold win_ok_b in Ok. destruct (snd ke) as [c0|v0|fn args] eqn:Ee; try discriminate.
+    destruct args as [|a rest].
+    - (* fn() *)
+      cbn [win_shape] in *. destruct Hz as [z [Ez Hz]]. rewrite Ez. apply strip_underscore_inv in Ez.
+      destruct (window_value_at fl_pandas w t (EOp fn []) fn None [] i r eq_refl Hi) as [j' [Hj' Ev]]. rewrite Ev. clear Ev.
+      unfold expr_order_sensitive in Gd. cbn [win_parts] in Gd.
+      assert (j' < List.length (sorted_part fl_pandas (cols t) w (rows t) r))%nat as Lj by (apply nth_error_Some; congruence).
+      destruct Hz as [-> | [-> | ->]]; subst fn; cbn [String.eqb orb Ascii.eqb Bool.eqb andb].
+      + rewrite lk_Gof. cbn [fst snd]. change (number_from 0) with (win_fn fl_pandas "cumcount" []).
+        assert (forall l : list (nat * list val), win_fn fl_pandas "cumcount" [] (map (fun _ => VNull) l)
+                  = win_fn fl_pandas "cumcount" [] (map (arg_val fl_pandas (cols t) None) (map snd l))) as HV
+          by (intros l; change (win_fn fl_pandas "cumcount" []) with (number_from 0); apply number_from_ext; rewrite !map_length; reflexivity).
+        rewrite (term_value t w S PS Ssorted "cumcount" [] (fun _ => VNull) None i r Ii HV (fun _ => Gd eq_refl) j' Hj').
+        change (win_fn fl_pandas "cumcount" []) with (number_from 0). change (win_fn fl_pandas "_row_number" []) with (number_from 1).
+        rewrite !nth_number_from by (rewrite map_length; exact Lj). cbn [Nat.add]. apply qn_plus_one.
+      + rewrite lk_Gof. cbn [fst snd]. change (number_from 0) with (win_fn fl_pandas "cumcount" []).
+        assert (forall l : list (nat * list val), win_fn fl_pandas "cumcount" [] (map (fun _ => VNull) l)
+                  = win_fn fl_pandas "cumcount" [] (map (arg_val fl_pandas (cols t) None) (map snd l))) as HV
+          by (intros l; change (win_fn fl_pandas "cumcount" []) with (number_from 0); apply number_from_ext; rewrite !map_length; reflexivity).
+        rewrite (term_value t w S PS Ssorted "cumcount" [] (fun _ => VNull) None i r Ii HV (fun _ => Gd eq_refl) j' Hj').
+        change (win_fn fl_pandas "cumcount" []) with (number_from 0). change (win_fn fl_pandas "_count" []) with (number_from 1).
+        rewrite !nth_number_from by (rewrite map_length; exact Lj). cbn [Nat.add]. apply qn_plus_one.
+      + rewrite lk_Gof. cbn [fst snd transform_op_map String.eqb Ascii.eqb Bool.eqb].
+        assert (forall l : list (nat * list val), win_fn fl_pandas "size" [] (map (fun _ => vone) l)
+                  = win_fn fl_pandas "size" [] (map (arg_val fl_pandas (cols t) None) (map snd l))) as HV
+          by (intros l; rewrite !(win_fn_broadcast fl_pandas "size" [] _ eq_refl), !map_map;
+              assert (agg_fn fl_pandas "size" (map (fun _ : nat * list val => vone) l)
+                      = agg_fn fl_pandas "size" (map (fun x : nat * list val => arg_val fl_pandas (cols t) None (snd x)) l)) as ->;
+              [destruct l; [reflexivity|cbn; rewrite !map_length; reflexivity]|reflexivity]).
+        rewrite (term_value t w S PS Ssorted "size" [] (fun _ => vone) None i r Ii HV (fun C => False_ind _ (Bool.diff_false_true C)) j' Hj'). reflexivity.
+    - (* fn(column, literals) *)
+      destruct a as [c|v|o args']; try discriminate; cbn [win_shape] in *;
+        [|destruct (all_consts rest); cbn [option_map] in Ok; discriminate Ok].
+      destruct (all_consts rest) as [ex|] eqn:Ea; cbn [option_map] in *; [|discriminate].
+      apply andb_true_iff in Ok. destruct Ok as [_ Nav]. apply negb_true_iff in Nav.
+      unfold transform_op_map. rewrite Nav.
+      destruct (window_value_at fl_pandas w t (EOp fn (ECol c :: rest)) fn (Some (ECol c)) ex i r) as [j' [Hj' Ev]];
+        [cbn [win_parts]; rewrite (all_consts_flat _ _ Ea); reflexivity|exact Hi|]. rewrite Ev. clear Ev.
+      rewrite lk_Gof. cbn [fst snd]. apply (term_value t w S PS Ssorted fn ex _ (Some (ECol c)) i r Ii).
+      + intros l. rewrite map_map. reflexivity.
+      + intros Os. apply Gd. unfold expr_order_sensitive. cbn [win_parts]. exact Os.
+      + exact Hj'.
+  Qed.
+End Final.
+
+(* ------------------------------------------------------------------ the windowed branch of _extend_step *)
+Lemma descr_tagged t : width_ok t -> descr t (tag_from 0 (rows t)) (fun it x => get (cols t) (snd it) x).
+Proof.
+  intros W. split; [exact W|]. generalize 0%nat. induction (rows t) as [|r rs IH]; intros n; simpl; constructor; [|apply IH].
+  intros x _. reflexivity.
+Qed.
+
+Lemma sem_wextend_get ops w t i r c :
+  width_ok t -> NoDup (map fst ops) -> nth_error (rows t) i = Some r ->
+  exists row, nth_error (rows (sem_wextend fl_pandas ops w t)) i = Some row /\
+    get (cols (sem_wextend fl_pandas ops w t)) row c
+    = match out_of ops c with Some ke => lookup_pos (window_column fl_pandas w t (snd ke)) i | None => get (cols t) r c end.
+Proof.
+  intros W N Hi. unfold sem_wextend. cbn [cols rows].
+  pose proof (tag_from_nth_error 0 _ _ _ Hi) as Ht. cbn [Nat.add] in Ht.
+  eexists. split; [apply map_nth_error, Ht|]. cbn [fst snd].
+  set (wcols := map (fun ke : string * expr => (fst ke, window_column fl_pandas w t (snd ke))) ops).
+  assert (List.length r = List.length (cols t)) as Lr by (unfold width_ok in W; rewrite Forall_forall in W; apply W; eapply nth_error_In; exact Hi).
+  set (F := fun kc : string * list (nat * val) => lookup_pos (snd kc) i).
+  assert (ext_cols (cols t) (map fst ops) = ext_cols (cols t) (map fst wcols)) as Ec by (unfold wcols; rewrite map_map; reflexivity).
+  transitivity (match last_assign F wcols c with Some v => v | None => get (cols t) r c end).
+  { destruct (fold_cells_inv F wcols r (cols t) Lr) as [_ H2]. rewrite Ec, <- H2. apply (fold_get F wcols r (cols t) c Lr). }
+  assert (NoDup (map fst wcols)) as Nw by (unfold wcols; rewrite map_map; exact N).
+  rewrite (last_assign_nodup F wcols c Nw).
+  unfold wcols. rewrite !map_map. cbn [fst snd]. clear -N.
+  induction ops as [|ke ops IH]; cbn [map mem out_of]; [reflexivity|].
+  inversion N as [|? ? Nk Nt]; subst. destruct (eq_dec c (fst ke)) as [->|n].
+  - rewrite String.eqb_refl. rewrite get_cons_same. reflexivity.
+  - replace (String.eqb (fst ke) c) with false by (symmetry; apply String.eqb_neq; congruence).
+    rewrite (get_cons_other _ _ _ _ _ n). apply IH, Nt.
+Qed.
+
+Lemma sort_keys_asc (vcl rev : list string) :
+  pd_sort_keys (map (fun c => (c, negb (mem c rev))) vcl) = map (fun c => (c, mem c rev)) vcl.
+Proof. unfold pd_sort_keys. rewrite map_map. apply map_ext. intros c. cbn [fst snd]. rewrite negb_involutive. reflexivity. Qed.
+
+Lemma disjointb_not_in (a b : list string) x : disjointb a b = true -> In x b -> ~ In x a.
+Proof. intros D Ib Ia. apply (proj1 (disjointb_spec _ _) D x Ia Ib). Qed.
+
+Lemma Forall2_of_nth {A B} (R : A -> B -> Prop) (l : list A) (m : list B) :
+  List.length l = List.length m -> (forall i a b, nth_error l i = Some a -> nth_error m i = Some b -> R a b) -> Forall2 R l m.
+Proof.
+  revert m. induction l as [|a l IH]; intros [|b m] L H; simpl in L; try discriminate; constructor.
+  - apply (H 0%nat); reflexivity.
+  - apply IH; [lia|]. intros i a0 b0 Ha Hb. apply (H (S i)); assumption.
+Qed.
+Lemma Forall2_nth_error' {A B} (R : A -> B -> Prop) l l' i a : Forall2 R l l' -> nth_error l i = Some a -> exists a', nth_error l' i = Some a' /\ R a a'.
+Proof.
+  intros F. revert i. induction F as [|x y l l' Rxy F IH]; intros [|i] H; simpl in *; try discriminate.
+  - inversion H; subst. exists y. split; [reflexivity|exact Rxy].
+  - apply IH, H.
+Qed.
+Lemma out_of_Some ops c ke : out_of ops c = Some ke -> In ke ops /\ fst ke = c.
+Proof.
+  induction ops as [|k o IH]; cbn [out_of]; [discriminate|]. destruct (String.eqb (fst k) c) eqn:E.
+  - intros H. inversion H; subst. split; [left; reflexivity|apply String.eqb_eq, E].
+  - intros H. destruct (IH H). split; [right; assumption|assumption].
+Qed.
+Lemma out_of_None ops c : out_of ops c = None <-> ~ In c (map fst ops).
+Proof.
+  induction ops as [|k o IH]; cbn [out_of map]; [split; [intros _ []|reflexivity]|]. destruct (String.eqb (fst k) c) eqn:E.
+  - split; [discriminate|]. intros N. exfalso. apply N. left. apply String.eqb_eq, E.
+  - rewrite IH. apply String.eqb_neq in E. split; [intros N [I|I]; [congruence|exact (N I)]|intros N I; apply N; right; exact I].
+Qed.
+Lemma win_ok_b_same_set cs cs' keys ke : same_set cs cs' -> win_ok_b cs keys ke = win_ok_b cs' keys ke.
+Proof. intros S. unfold win_ok_b. destruct (win_shape (snd ke)) as [[[fn [[c|v]|]] ex]|]; try reflexivity. rewrite (mem_same_set _ _ c S). reflexivity. Qed.
+Lemma nth_error_combine {A B} (l : list A) (m : list B) i a b : nth_error l i = Some a -> nth_error m i = Some b -> nth_error (combine l m) i = Some (a, b).
+Proof. revert m i. induction l as [|x l IH]; intros [|y m] [|i] Ha Hb; simpl in *; try discriminate; [inversion Ha; inversion Hb; reflexivity|apply IH; assumption]. Qed.
+
+Theorem px_extend_windowed_eqv srt ops w t x cs0 :
+  sorter_ok srt -> width_ok t -> same_set (cols t) cs0 -> (0 < nrows t)%nat ->
+  nodup_names (map fst ops) = true -> ops <> [] ->
+  disjointb (map fst ops) (w_part w ++ w_order w) = true -> subset (w_part w ++ w_order w) cs0 = true ->
+  nodup_names (w_part w ++ w_order w) = true ->
+  forallb (win_ok_b cs0 (map fst ops)) ops = true ->
+  px_extend_windowed srt ops w t = Some x ->
+  width_ok x /\ same_set (cols x) (ext_cols (cols t) (map fst ops)) /\
+  ((ops_order_sensitive ops = true -> window_total fl_pandas (cols t) w (rows t)) -> tab_eqv x (sem_wextend fl_pandas ops w t)).
+Proof.
+  intros So Wt Sc Pn Nk0 Nops Dj Sb Npo0 Ok. unfold px_extend_windowed.
+  set (keys := map fst ops) in *. set (names0 := set_union (cols t) keys).
+  set (standin := unused_column_name base_standin names0). set (names1 := names0 ++ [standin]).
+  set (orig := unused_column_name base_orig_index names1). set (names2 := names1 ++ [orig]).
+  pose proof (unused_column_name_fresh base_standin names0) as Fst. fold standin in Fst.
+  pose proof (unused_column_name_fresh base_orig_index names1) as For. fold orig in For.
+  clearbody standin orig.
+  assert (NoDup keys) as Nk by (apply nodup_names_sound; exact Nk0).
+  assert (NoDup (w_part w ++ w_order w)) as Npo by (apply nodup_names_sound; exact Npo0).
+  assert (forall c, In c (cols t) -> In c names0) as In0 by (intros c I; apply In_set_union; left; exact I).
+  assert (forall c, In c keys -> In c names0) as Ik0 by (intros c I; apply In_set_union; right; exact I).
+  assert (orig <> standin) as Nos by (intros E; apply For, in_app_iff; right; left; symmetry; exact E).
+  assert (~ In orig names0) as For0 by (intros I; apply For, in_app_iff; left; exact I).
+  (* the sub-frame's columns *)
+  set (cl0 := fold_left add_end (w_order w) (py_set (w_part w))).
+  assert (cl0 = w_part w ++ w_order w) as Ecl0.
+  { unfold cl0. rewrite (py_set_nodup _ (NoDup_app_l' _ _ Npo)). apply fold_add_end_nodup, Npo. }
+  destruct (fold_left _ ops (Some (mkws cl0 [] names2 t))) as [st|] eqn:Ew; cbn [obind]; [|discriminate].
+  rewrite (wcollect_fold cs0 keys ops cl0 names2 t st Ok Ew). cbn [ws_cols ws_res ws_temps]. clear Ew st.
+  set (vcl := fold_left vcols_step ops cl0).
+  destruct (vcols_prefix ops cl0) as [extra Evcl]. fold vcl in Evcl.
+  assert (forall c, In c vcl -> In c (cols t)) as Vin.
+  { intros c Ic. apply vcols_In in Ic. destruct Ic as [Ic|[ke [fn [ex [Ike Esh]]]]].
+    - apply Sc. rewrite Ecl0 in Ic. apply (proj1 (subset_spec _ _) Sb), Ic.
+    - apply Sc. apply (proj1 (forallb_forall _ _) Ok) in Ike. unfold win_ok_b in Ike. rewrite Esh in Ike.
+      apply andb_true_iff in Ike. destruct Ike as [Ike _]. apply andb_true_iff in Ike. destruct Ike as [Ike _]. apply mem_In, Ike. }
+  (* sub-frame: the selected columns and the original index *)
+  set (T0 := tag_from 0 (rows t)). set (phi0 := fun (it : nat * list val) (c : string) => get (cols t) (snd it) c).
+  pose proof (descr_tagged t Wt) as D0. fold T0 phi0 in D0.
+  destruct (pd_select vcl t) as [sub0|] eqn:E0; cbn [obind]; [|discriminate].
+  destruct (descr_select _ _ _ _ _ D0 E0) as [Ds0 Cs0]. unfold clean_copy, pd_reset_index.
+  assert (pd_range_index sub0 = map (fun it : nat * list val => vnat (fst it)) T0) as Er.
+  { unfold pd_range_index, nrows. rewrite (descr_len _ _ _ Ds0). unfold T0. rewrite tag_from_length, <- (map_map fst vnat), tag_from_fst. reflexivity. }
+  rewrite Er. destruct (pd_set_col orig _ sub0) as [sub1|] eqn:E1; cbn [obind]; [|discriminate].
+  destruct (descr_set_col _ _ _ _ _ _ Ds0 E1) as [Ds1 Cs1]. rewrite Cs0 in Cs1.
+  assert (~ In orig vcl) as Nov by (intros I; apply For0, In0, Vin, I).
+  rewrite (add_end_new _ _ Nov) in Cs1.
+  set (phi1 := fun (it : nat * list val) (x0 : string) => if eq_dec x0 orig then vnat (fst it) else phi0 it x0) in *.
+  (* the sort by partition, order and value columns *)
+  set (okeys := okeys_of w).
+  destruct (if Nat.ltb 0 (List.length cl0) then _ else _) as [sub2|] eqn:E2; cbn [obind]; [|discriminate].
+  assert (exists S, Permutation S T0 /\ descr sub2 S phi1 /\ cols sub2 = vcl ++ [orig] /\
+            forall r0, StronglySorted (fun a b : nat * list val => row_le fl_pandas (cols t) okeys (snd a) (snd b) = true)
+                         (filter (fun it' => keys_eqv (key_of (cols t) (w_part w) r0) (key_of (cols t) (w_part w) (snd it'))) S)) as [S [PS [Ds2 [Cs2 SSp]]]].
+  { destruct (Nat.ltb 0 (List.length cl0)) eqn:El.
+    - destruct (pd_sort_values_with srt _ sub1) as [sub2'|] eqn:Es; cbn [option_map] in E2; [|discriminate]. inversion E2; subst sub2'. clear E2.
+      destruct (descr_sort srt _ _ _ _ _ So Ds1 Es) as [S [PS [SS [Ds2 Cs2]]]]. exists S. split; [exact PS|]. split; [exact Ds2|]. split; [rewrite Cs2; exact Cs1|].
+      rewrite sort_keys_asc in SS. intros r0. apply SS_filter with (P := fun it' => keys_eqv (key_of (cols t) (w_part w) r0) (key_of (cols t) (w_part w) (snd it'))) in SS.
+      eapply SS_weaken_in; [exact SS|]. intros a b Ia Ib Hab. apply filter_In in Ia. apply filter_In in Ib. destruct Ia as [_ Pa]. destruct Ib as [_ Pb].
+      (* inside one partition the comparison on (partition, order, value) columns reduces to the order columns *)
+      rewrite Evcl, Ecl0, <- app_assoc, !map_app in Hab.
+      assert (forall c, In c (w_part w ++ w_order w) -> c <> orig) as Npo_orig.
+      { intros c Ic ->. apply For0, In0, Sc. apply (proj1 (subset_spec _ _) Sb), Ic. }
+      rewrite rle_app_eqv in Hab.
+      2:{ intros c Ic. rewrite map_map in Ic. cbn [fst] in Ic. rewrite map_id in Ic. unfold phi1.
+          destruct (eq_dec c orig) as [E|_]; [exfalso; apply (Npo_orig c); [apply in_app_iff; left; exact Ic|exact E]|].
+          unfold phi0. apply (keys_eqv_each (w_part w) (get (cols t) (snd a)) (get (cols t) (snd b))); [|exact Ic].
+          unfold key_of in Pa, Pb. rewrite keys_eqv_sym in Pa. apply (keys_eqv_trans _ _ _ Pa Pb). }
+      apply rle_prefix in Hab. rewrite <- Hab. unfold okeys, okeys_of. apply row_le_rle.
+      + intros c Ic. rewrite map_map in Ic. cbn [fst] in Ic. rewrite map_id in Ic. unfold phi1, phi0.
+        destruct (eq_dec c orig) as [E|_]; [exfalso; apply (Npo_orig c); [apply in_app_iff; right; exact Ic|exact E]|reflexivity].
+      + intros c Ic. rewrite map_map in Ic. cbn [fst] in Ic. rewrite map_id in Ic. unfold phi1, phi0.
+        destruct (eq_dec c orig) as [E|_]; [exfalso; apply (Npo_orig c); [apply in_app_iff; right; exact Ic|exact E]|reflexivity].
+    - inversion E2; subst sub2. exists T0. split; [apply Permutation_refl|]. split; [exact Ds1|]. split; [exact Cs1|].
+      intros r0. apply Nat.ltb_ge in El. assert (cl0 = []) as Ecl by (apply length_zero_nil; lia). rewrite Ecl0 in Ecl. apply app_eq_nil in Ecl.
+      destruct Ecl as [_ Eo]. unfold okeys, okeys_of. rewrite Eo. apply SS_all. intros a b. reflexivity. }
+  clear E2.
+  (* the stand-in column and the grouping *)
+  pose proof (descr_set_scalar standin vone _ _ _ Ds2) as Ds3.
+  set (sub3 := pd_set_scalar standin vone sub2) in *.
+  set (phi3 := fun (it : nat * list val) (x0 : string) => if eq_dec x0 standin then vone else phi1 it x0) in *.
+  assert (cols sub3 = (vcl ++ [orig]) ++ [standin]) as Cs3.
+  { unfold sub3, pd_set_scalar. cbn [cols]. rewrite Cs2. apply add_end_new. intros I. apply in_app_iff in I.
+    destruct I as [I|[I|[]]]; [apply Fst, In0, Vin, I|apply Nos; exact I]. }
+  set (gk := match w_part w with [] => [standin] | pb => pb end).
+  assert (forall c, In c gk -> In c (cols sub3)) as Igk.
+  { intros c Ic. rewrite Cs3. unfold gk in Ic. destruct (w_part w) as [|p0 pt] eqn:Ep.
+    - destruct Ic as [<-|[]]. apply in_app_iff. right. left. reflexivity.
+    - apply in_app_iff. left. apply in_app_iff. left. rewrite Evcl, Ecl0. apply in_app_iff. left. apply in_app_iff. left. exact Ic. }
+  unfold pd_row_keys. replace (subset gk (cols sub3)) with true by (symmetry; apply subset_spec; exact Igk). cbn [obind].
+  rewrite (descr_keys _ _ _ gk Ds3 Igk).
+  set (K := fun it : nat * list val => map (phi3 it) gk).
+  assert (forall it it', keys_eqv (K it) (K it') = keys_eqv (key_of (cols t) (w_part w) (snd it)) (key_of (cols t) (w_part w) (snd it'))) as HK.
+  { intros it it'. unfold K, gk. destruct (w_part w) as [|p0 pt] eqn:Ep.
+    - cbn [map key_of]. unfold phi3. destruct (eq_dec standin standin); [reflexivity|congruence].
+    - unfold key_of. f_equal; apply map_ext_in; intros c Ic; unfold phi3, phi1, phi0.
+      + assert (In c (cols t)) as Ict by (apply Sc, (proj1 (subset_spec _ _) Sb), in_app_iff; left; exact Ic).
+        destruct (eq_dec c standin) as [E|_]; [exfalso; apply Fst, In0; rewrite <- E; exact Ict|].
+        destruct (eq_dec c orig) as [E|_]; [exfalso; apply For0, In0; rewrite <- E; exact Ict|reflexivity].
+      + assert (In c (cols t)) as Ict by (apply Sc, (proj1 (subset_spec _ _) Sb), in_app_iff; left; exact Ic).
+        destruct (eq_dec c standin) as [E|_]; [exfalso; apply Fst, In0; rewrite <- E; exact Ict|].
+        destruct (eq_dec c orig) as [E|_]; [exfalso; apply For0, In0; rewrite <- E; exact Ict|reflexivity]. }
+  assert (NoDup (map fst S)) as NdS by (apply (NoDup_tags t S PS)).
+  (* the window terms *)
+  destruct (fold_left _ ops (Some sub3)) as [sub4|] eqn:E4; cbn [obind]; [|discriminate].
+  destruct (wapply_fold (cols t) S K standin NdS ops keys sub3 phi3 sub4 Nk (fun k I => I) Ds3) as [Ds4 Cs4].
+  { split; [rewrite Cs3; apply in_app_iff; right; left; reflexivity|]. split; [intros I; apply Fst, Ik0, I|].
+    intros it _. unfold phi3. destruct (eq_dec standin standin); [reflexivity|congruence]. }
+  { intros ke fn c ex Ike Esh. pose proof (proj1 (forallb_forall _ _) Ok ke Ike) as Oke. unfold win_ok_b in Oke. rewrite Esh in Oke.
+    apply andb_true_iff in Oke. destruct Oke as [Oke _]. apply andb_true_iff in Oke. destruct Oke as [Mc Hk].
+    assert (In c (cols t)) as Ict by (apply Sc, mem_In, Mc).
+    split; [|split].
+    - apply orb_true_iff in Hk. destruct Hk as [Hk|Hk]; [left; apply mem_false, negb_true_iff, Hk|right; apply String.eqb_eq, Hk].
+    - rewrite Cs3. apply in_app_iff. left. apply in_app_iff. left. apply vcols_In. right. exists ke, fn, ex. split; assumption.
+    - intros it _. unfold phi3, phi1, phi0.
+      destruct (eq_dec c standin) as [E|_]; [exfalso; apply Fst, In0; rewrite <- E; exact Ict|].
+      destruct (eq_dec c orig) as [E|_]; [exfalso; apply For0, In0; rewrite <- E; exact Ict|reflexivity]. }
+  { exact E4. }
+  clear E4.
+  (* no stand-in columns for constants were created, nothing to delete; sort back by the original index *)
+  cbn [fold_left obind].
+  destruct (pd_sort_values_with srt [(orig, true)] sub4) as [sub5|] eqn:E5; cbn [obind]; [|discriminate].
+  destruct (descr_sort srt _ _ _ _ _ So Ds4 E5) as [S' [PS' [SS' [Ds5 Cs5]]]].
+  set (phi4 := fun (it : nat * list val) (x0 : string) => match out_of ops x0 with Some ke => OUT (cols t) S K ke it | None => phi3 it x0 end) in *.
+  assert (out_of ops orig = None) as Oorig.
+  { clear -For0 Ik0. assert (~ In orig (map fst ops)) as N by (intros I; apply For0, Ik0, I). clear -N.
+    induction ops as [|ke o IH]; [reflexivity|]. cbn [out_of]. destruct (String.eqb (fst ke) orig) eqn:E.
+    - exfalso. apply N. left. apply String.eqb_eq, E.
+    - apply IH. intros I. apply N. right. exact I. }
+  assert (S' = T0) as ES'.
+  { apply (sorted_perm_unique (fun a b : nat * list val => Nat.leb (fst a) (fst b))).
+    - eapply SS_weaken_in; [exact SS'|]. intros a b _ _ Hab. cbn [pd_sort_keys map fst snd negb rle] in Hab. unfold phi4 in Hab. rewrite Oorig in Hab.
+      unfold phi3, phi1 in Hab. destruct (eq_dec orig standin); [congruence|]. destruct (eq_dec orig orig); [|congruence].
+      rewrite vnat_cmp in Hab. exact Hab.
+    - apply tag_from_sorted.
+    - eapply perm_trans; [exact PS'|exact PS].
+    - intros a b Ia Ib L1 L2. apply Nat.leb_le in L1. apply Nat.leb_le in L2. assert (fst a = fst b) as Ef by lia.
+      assert (NoDup (map fst S')) as Nd' by (eapply Permutation_NoDup; [apply Permutation_map, Permutation_sym, PS'|exact NdS]).
+      destruct (In_nth_error _ _ Ia) as [ia Ha]. destruct (In_nth_error _ _ Ib) as [ib Hb].
+      assert (ia = ib) as ->; [|congruence].
+      apply (proj1 (NoDup_nth_error _) Nd'); [rewrite map_length; apply nth_error_Some; congruence|].
+      rewrite (map_nth_error fst _ _ Ha), (map_nth_error fst _ _ Hb), Ef. reflexivity. }
+  subst S'. clear PS' SS'.
+  (* copy out *)
+  destruct (pd_select keys sub5) as [sub6|] eqn:E6; cbn [obind]; [|discriminate].
+  destruct (descr_select _ _ _ _ _ Ds5 E6) as [Ds6 Cs6].
+  intros Hadd.
+  assert (nrows t = nrows sub6) as Ln by (unfold nrows; rewrite (descr_len _ _ _ Ds6); unfold T0; rewrite tag_from_length; reflexivity).
+  destruct (add_columns_spec t sub6 x Wt (proj1 Ds6) Ln Hadd) as [Sx [Wx Fx]].
+  assert (same_set (cols x) (ext_cols (cols t) keys)) as Sxe.
+  { intros c. rewrite (Sx c), Cs6. unfold ext_cols. rewrite In_fold_add_end, in_app_iff. reflexivity. }
+  split; [exact Wx|]. split; [exact Sxe|]. intros Gd.
+  split.
+  - exact Sxe.
+  - apply Forall2_of_nth.
+    + rewrite (Forall2_len _ _ _ Fx), combine_length. unfold sem_wextend. cbn [rows]. rewrite map_length, tag_from_length.
+      rewrite (descr_len _ _ _ Ds6). unfold T0. rewrite tag_from_length. apply Nat.min_id.
+    + intros i ru rs Hru Hrs c.
+      destruct (nth_error (rows t) i) as [r|] eqn:Hr.
+      2:{ exfalso. apply nth_error_None in Hr. assert (i < List.length (rows x))%nat as Li by (apply nth_error_Some; congruence).
+          rewrite (Forall2_len _ _ _ Fx), combine_length in Li. lia. }
+      destruct (nth_error (rows sub6) i) as [s6|] eqn:Hs6.
+      2:{ exfalso. apply nth_error_None in Hs6. assert (i < List.length (rows x))%nat as Li by (apply nth_error_Some; congruence).
+          rewrite (Forall2_len _ _ _ Fx), combine_length in Li. lia. }
+      destruct (Forall2_nth_error' _ _ _ _ _ Fx Hru) as [p [Hp Rp]]. rewrite (nth_error_combine _ _ _ _ _ Hr Hs6) in Hp. inversion Hp; subst p. cbn [fst snd] in Rp.
+      destruct (sem_wextend_get ops w t i r c Wt Nk Hr) as [row [Hrow Erow]]. rewrite Hrs in Hrow. inversion Hrow; subst row. rewrite Erow, (Rp c).
+      assert (nth_error T0 i = Some (i, r)) as HT by (unfold T0; apply (tag_from_nth_error 0 _ _ _ Hr)).
+      destruct (Forall2_nth_error' _ _ _ _ _ (proj2 Ds6) Hs6) as [it [Hit Rit]]. rewrite HT in Hit. inversion Hit; subst it.
+      destruct (out_of ops c) as [ke|] eqn:Eo.
+      * destruct (out_of_Some _ _ _ Eo) as [Ike Ek]. replace (mem c (cols sub6)) with true by (symmetry; apply mem_In; rewrite Cs6, <- Ek; apply in_map, Ike).
+        rewrite (Rit c) by (rewrite Cs6, <- Ek; apply in_map, Ike). unfold phi4. rewrite Eo.
+        pose proof (proj1 (forallb_forall _ _) Ok ke Ike) as Oke.
+        apply (out_value t w S K PS SSp HK keys ke i r).
+        -- rewrite (win_ok_b_same_set _ _ _ _ Sc). exact Oke.
+        -- apply (Permutation_in _ (Permutation_sym PS)). eapply nth_error_In. exact HT.
+        -- exact Hr.
+        -- intros Os. apply Gd. unfold ops_order_sensitive. apply existsb_exists. exists ke. split; assumption.
+        -- unfold win_ok_b in Oke. destruct (win_shape (snd ke)) as [[[fn [[c1|v1]|]] ex]|]; try exact I.
+           cbn [mem] in Oke. destruct (eq_dec fn "_row_number") as [->|_]; [exists "row_number"; split; [reflexivity|left; reflexivity]|].
+           destruct (eq_dec fn "_count") as [->|_]; [exists "count"; split; [reflexivity|right; left; reflexivity]|].
+           destruct (eq_dec fn "_size") as [->|_]; [exists "size"; split; [reflexivity|right; right; reflexivity]|discriminate].
+      * replace (mem c (cols sub6)) with false by (symmetry; rewrite Cs6; apply mem_false, out_of_None, Eo). reflexivity.
+Qed.
